@@ -1,4 +1,5 @@
 import PsModel.Lemmas.C01
+import PsModel.Lemmas.C01Comp
 import PsModel.Gen.Handlers
 import PsModel.Model.C01Rec
 /-!
@@ -168,3 +169,49 @@ def modelledHandlers : List String :=
 theorem C01_handlers_present : ∀ h ∈ modelledHandlers, h ∈ Gen.AST_HANDLERS := by decide
 
 end PsModel.C01
+
+/-! ## (c) comprehension loop variables: their own scope (`loopvar_scope_save` / `loopvar_scope_restore`) -/
+namespace PsModel.C01Comp
+
+/-- **Isolation.**  Whatever the enclosing symbol table holds (plain values, cells shared with closures, unbound cells), for
+any list of distinct loop-variable names and any number of iterations with any values: after the comprehension every name
+has exactly the entry it had before, and no cell has changed – the loop variables neither leak nor write through to a
+closure's variable. -/
+theorem C01_comprehension_scope (f : Frame) (lv : List String) (iters : List (List Nat)) (h : lv.Nodup) :
+    (comp true f lv iters).cells = f.cells ∧ ∀ y, get (comp true f lv iters).tbl y = get f.tbl y := by
+  obtain ⟨s1, s2, s3⟩ := save_spec f lv h
+  obtain ⟨l1, l2, l3⟩ := loops_spec lv iters (save true f lv).1 s1
+  refine ⟨?_, ?_⟩
+  · simp only [comp]; exact l2.trans s2
+  · intro y
+    simp only [comp]
+    by_cases hy : y ∈ lv
+    · rw [restore_in _ lv _ y h hy]
+      simp only [save]
+      rw [get_savedOf]; simp [hy]
+    · rw [restore_notin _ lv _ y hy, l3 y hy, s3 y hy]
+
+/-- inside the comprehension a loop variable reads the value of the current iteration (never a stale cell) -/
+theorem C01_comprehension_reads_loop_value (f : Frame) (lv : List String) (x : String) (v : Nat) (h : lv.Nodup) (hx : x ∈ lv) :
+    load (assign (save true f lv).1 x v) x = some v := by
+  obtain ⟨s1, _, _⟩ := save_spec f lv h
+  have hnc : ∀ i, get (save true f lv).1.tbl x ≠ some (.cell i) := s1 x hx
+  unfold assign
+  cases hg : get (save true f lv).1.tbl x with
+  | none => simp [load, get_put_eq]
+  | some s => cases s with
+    | plain w => simp [load, get_put_eq]
+    | cell i => exact absurd hg (hnc i)
+
+/-- before fix cc1c3b5 (cells were not hidden) the loop variable overwrote the closure's variable: `x` is cell 0 holding 10,
+`[x for x in (1, 2)]` leaves 2 in the cell -/
+theorem C01_regress_comprehension_writes_through :
+    (comp false ⟨[("x", .cell 0)], [some 10]⟩ ["x"] [[1], [2]]).cells = [some 2] ∧
+    (comp true ⟨[("x", .cell 0)], [some 10]⟩ ["x"] [[1], [2]]).cells = [some 10] := by decide
+
+/-- non-vacuity: a table with a shared cell, an unbound cell, a plain entry and a name without entry -/
+example : (["x", "y", "z", "w"] : List String).Nodup ∧
+    (comp true ⟨[("x", .cell 0), ("y", .cell 1), ("z", .plain 5)], [some 10, none]⟩ ["x", "y", "z", "w"] [[1, 2, 3, 4], [5, 6, 7, 8]]).cells
+      = [some 10, none] := by decide
+
+end PsModel.C01Comp
